@@ -423,6 +423,20 @@ def headers_and_tables(ctx, ld):
               'Schema.infer(sample, headers=stream.headers, confidence=1, guesser_cls=self.guesser)',
               'the schema is not inferred with confidence=1 from the stream headers with the configured guesser: a column is typed although '
               'some of its sampled cells do not cast')
+    # the inferred fields carry the stream's own headers: Schema.infer renames what it is given (an empty header becomes `field<N>`,
+    # a repeated one gets a number) while the rows stay keyed by the headers as read - so the names are put back, field by field
+    schema_var = pseudo(infs[0]._parent.targets[0]) if isinstance(getattr(infs[0], '_parent', None), ast.Assign) else None
+    hdr = u(kwi['headers']) if 'headers' in kwi else None
+    restored = False
+    if schema_var and hdr:
+        for pat_ in ("for (_h, _f) in zip(%s, %s['fields']):\n    _f['name'] = _h" % (hdr, schema_var),
+                     "for (_f, _h) in zip(%s['fields'], %s):\n    _f['name'] = _h" % (schema_var, hdr),
+                     "for (_i, _f) in enumerate(%s['fields']):\n    _f['name'] = %s[_i]" % (schema_var, hdr),
+                     "for (_i, _h) in enumerate(%s):\n    %s['fields'][_i]['name'] = _h" % (hdr, schema_var)):
+            restored = restored or has_stmt(pat_, sp.node)
+    run.check(restored, 'OPT', where(repo, infs[0]), sp.qualname, "for header, field in zip(stream.headers, schema['fields']): field['name'] = header",
+              'the inferred fields keep the names Schema.infer made up (field<N> for an empty header, a number appended to a repeated one) '
+              'while the rows are keyed by the headers as read: those columns are declared under one name and delivered under another')
     want = {'ignore_blank_headers': True, 'skip_rows': [{'type': 'preset', 'value': 'auto'}], 'headers': 1, 'sample_size': 1000}
     for k_, v_ in want.items():
         run.check(dflt.get(k_) == v_, 'OPT', sp.where, sp.qualname, 'default %s = %r' % (k_, v_),
